@@ -1,3 +1,639 @@
-/- Property theorems for C15 — to be filled in. -/
+/-
+  C15 — jump loops are bounded and always terminate (pure half).
+
+  Part 1: the traversal functions of `handlers/jump_to_stage/traversal.py` as modelled in
+  `Stab.Jump` (`resettable`, `downstream`, `skipped`, `isBackward` — the definitions the driver runs
+  and the correspondence check compares with the real functions).  All theorems hold for EVERY
+  graph: no acyclicity, no well-formedness (prerequisites may name missing stages, the root may be
+  out of range, lists may contain duplicates) is assumed.
+
+  Part 2: the jump budget (`jumpStep`, `runJumps`): what one accepted jump writes to the per-stage
+  `_jump_count` values, a potential that strictly decreases, and the resulting explicit bound on
+  the number of accepted jumps on every schedule.  The count is PER STAGE and a jump OVERWRITES
+  the target's count with `source count + 1` (possibly lowering it), so the number of accepted
+  jumps of a workflow is NOT bounded by `_max_jumps` (`jumps_exceed_max_counterexample`,
+  `default_budget_65_jumps_counterexample`; replayed on the real engine by harness/props/c15.py).
+-/
+import Stab.Model.Jump
+import Stab.Lemmas.C15
+
 namespace Stab.Props.C15
+open Stab.Jump Stab.Lemmas.C15
+
+/-! ## Part 1 — traversal -/
+
+/-- `S` is closed under the re-arm rule: a stage with at least one prerequisite, all of whose
+    prerequisites are in `S`, is in `S` -/
+def Closed (g : Graph) (S : Nat → Prop) : Prop :=
+  ∀ i, prereqs g i ≠ [] → (∀ r ∈ prereqs g i, S r) → S i
+
+/-- the reset scope of a jump to `root`: the root and the resettable stages -/
+def Scope (g : Graph) (root : Nat) (i : Nat) : Prop := i = root ∨ i ∈ resettable g root
+
+theorem scope_iff_fix (g : Graph) (root i : Nat) :
+    Scope g root i ↔ i ∈ fix (cS g) g.length (g.length + 1) [root] := by
+  rw [← resettable_fix]; simp [Scope]
+
+theorem resettable_no_dup (g : Graph) (root : Nat) : (resettable g root).Nodup := by
+  have h := fix_keeps_inv (cS g) (fresh_cS g) g.length root (g.length + 1) [root] (inv_root _ _)
+  rw [← resettable_fix] at h
+  exact (List.nodup_cons.mp h.1).2
+
+theorem resettable_excludes_root (g : Graph) (root : Nat) : root ∉ resettable g root := by
+  have h := fix_keeps_inv (cS g) (fresh_cS g) g.length root (g.length + 1) [root] (inv_root _ _)
+  rw [← resettable_fix] at h
+  exact (List.nodup_cons.mp h.1).1
+
+/-- every resettable stage is a stage of the workflow -/
+theorem resettable_in_range (g : Graph) (root i : Nat) (h : i ∈ resettable g root) : i < g.length := by
+  have hinv := fix_keeps_inv (cS g) (fresh_cS g) g.length root (g.length + 1) [root] (inv_root _ _)
+  rw [← resettable_fix] at hinv
+  rcases hinv.2 i (List.mem_cons_of_mem _ h) with rfl | hlt
+  · exact absurd h (resettable_excludes_root g i)
+  · exact hlt
+
+/-- a stage with prerequisites is a stage of the workflow (`prereqs` of a missing index is `[]`) -/
+theorem prereqs_ne_nil_lt (g : Graph) (i : Nat) (h : prereqs g i ≠ []) : i < g.length := by
+  unfold prereqs at h
+  rcases Nat.lt_or_ge i g.length with hlt | hge
+  · exact hlt
+  · simp [List.getD, List.getElem?_eq_none hge] at h
+
+/-- **fuel sufficiency**: `g.length + 1` passes reach the fixed point — one more pass over the
+    final scope adds nothing — for every graph (cyclic ones included). -/
+theorem resettable_fuel_suffices (g : Graph) (root : Nat) :
+    (scopePass g (root :: resettable g root)).2 = [] := by
+  rw [scopePass_eq, resettable_fix]
+  exact fix_closed (cS g) (fresh_cS g) g.length root (g.length + 1) [root] (inv_root _ _) (by simp; omega)
+
+/-- … and any larger fuel computes the same list -/
+theorem resettable_fuel_irrelevant (g : Graph) (root k : Nat) :
+    (scopeLoop g (g.length + 1 + k) [root] []).2 = resettable g root := by
+  have h1 := resettable_fix_any_fuel g root (g.length + 1 + k)
+  have hcl := fix_closed (cS g) (fresh_cS g) g.length root (g.length + 1) [root] (inv_root _ _) (by simp; omega)
+  rw [fix_stable (cS g) g.length (g.length + 1) [root] hcl k, ← resettable_fix] at h1
+  exact (List.cons.inj h1).2
+
+/-- **closed**: the scope (root ∪ resettable) is closed under the re-arm rule -/
+theorem resettable_closed (g : Graph) (root : Nat) : Closed g (Scope g root) := by
+  intro i hne hall
+  have hfix := resettable_fuel_suffices g root
+  rw [scopePass_eq] at hfix
+  simp only at hfix
+  have hlt := prereqs_ne_nil_lt g i hne
+  have hc := grow_nil (cS g) _ _ hfix i (List.mem_range.mpr hlt)
+  by_cases hin : i ∈ root :: resettable g root
+  · simpa [Scope] using hin
+  · exfalso
+    have : cS g (root :: resettable g root) i = true := by
+      simp only [cS, Bool.and_eq_true, Bool.not_eq_eq_eq_not, Bool.not_true, List.all_eq_true,
+        List.contains_eq_mem, decide_eq_true_eq, decide_eq_false_iff_not, List.isEmpty_eq_false_iff]
+      exact ⟨hin, hne, fun r hr => by simpa [Scope] using hall r hr⟩
+    rw [this] at hc; cases hc
+
+/-- **least**: the scope is contained in every closed set that contains the root — together with
+    `resettable_closed`: root ∪ resettable is THE least set containing the root and closed under
+    "non-empty prerequisites all inside", i.e. "the target and the stages that depend only on it". -/
+theorem resettable_least (g : Graph) (root : Nat) (S : Nat → Prop) (hroot : S root)
+    (hcl : Closed g S) : ∀ i, Scope g root i → S i := by
+  intro i hi
+  rw [scope_iff_fix] at hi
+  refine fix_inv (cS g) g.length S ?_ (g.length + 1) [root] (by simpa using hroot) i hi
+  intro sc j hsc hc
+  simp only [cS, Bool.and_eq_true, Bool.not_eq_eq_eq_not, Bool.not_true, List.all_eq_true,
+    List.contains_eq_mem, decide_eq_true_eq, decide_eq_false_iff_not, List.isEmpty_eq_false_iff] at hc
+  exact hcl j hc.2.1 (fun r hr => hsc r (hc.2.2 r hr))
+
+/-- **supported / fan-in boundary**: a resettable stage has prerequisites and every one of them is
+    in the scope.  Contrapositive (`fan_in_excluded`): a stage with a prerequisite outside the scope
+    — a fan-in fed by a branch not involved in the jump — is never resettable. -/
+theorem resettable_supported (g : Graph) (root i : Nat) (h : i ∈ resettable g root) :
+    prereqs g i ≠ [] ∧ ∀ r ∈ prereqs g i, Scope g root r := by
+  have hi : i ∈ fix (cS g) g.length (g.length + 1) [root] := by
+    rw [← resettable_fix]; exact List.mem_cons_of_mem _ h
+  have hne : i ∉ [root] := by
+    simp only [List.mem_singleton]; rintro rfl; exact resettable_excludes_root g _ h
+  obtain ⟨sc', _, h2, h3⟩ := fix_witness (cS g) g.length (g.length + 1) [root] i hi hne
+  simp only [cS, Bool.and_eq_true, Bool.not_eq_eq_eq_not, Bool.not_true, List.all_eq_true,
+    List.contains_eq_mem, decide_eq_true_eq, decide_eq_false_iff_not, List.isEmpty_eq_false_iff] at h3
+  exact ⟨h3.2.1, fun r hr => (scope_iff_fix g root r).mpr (h2 r (h3.2.2 r hr))⟩
+
+theorem fan_in_excluded (g : Graph) (root i p : Nat) (hp : p ∈ prereqs g i)
+    (hout : ¬ Scope g root p) : i ∉ resettable g root :=
+  fun h => hout ((resettable_supported g root i h).2 p hp)
+
+/-- a stage without prerequisites (an initial stage) is never resettable -/
+theorem initial_stage_excluded (g : Graph) (root i : Nat) (h : prereqs g i = []) :
+    i ∉ resettable g root :=
+  fun hi => (resettable_supported g root i hi).1 h
+
+/-! ### `downstream` is reachability -/
+
+/-- `Reach g r i`: a non-empty path `r → … → i` along "is a prerequisite of" edges -/
+inductive Reach (g : Graph) : Nat → Nat → Prop where
+  | single {r i : Nat} : r ∈ prereqs g i → Reach g r i
+  | tail {r j i : Nat} : Reach g r j → j ∈ prereqs g i → Reach g r i
+
+theorem Reach.lt {g : Graph} {r i : Nat} (h : Reach g r i) : i < g.length := by
+  cases h with
+  | single h => exact prereqs_ne_nil_lt g i (List.ne_nil_of_mem h)
+  | tail _ h => exact prereqs_ne_nil_lt g i (List.ne_nil_of_mem h)
+
+/-- the naive closure computed by `downLoop` -/
+def closure (g : Graph) (root : Nat) : List Nat := downLoop g (g.length + 1) [root]
+
+theorem closure_sound (g : Graph) (root i : Nat) (h : i ∈ closure g root) :
+    i = root ∨ Reach g root i := by
+  unfold closure at h
+  rw [downLoop_eq] at h
+  refine fix_inv (cD g) g.length (fun i => i = root ∨ Reach g root i) ?_ (g.length + 1) [root]
+    (by intro x hx; simp at hx; exact Or.inl hx) i h
+  intro sc j hsc hc
+  simp only [cD, Bool.and_eq_true, Bool.not_eq_eq_eq_not, Bool.not_true, List.any_eq_true,
+    List.contains_eq_mem, decide_eq_true_eq, decide_eq_false_iff_not] at hc
+  obtain ⟨_, r, hr, hrs⟩ := hc
+  rcases hsc r hrs with rfl | hreach
+  · exact Or.inr (Reach.single hr)
+  · exact Or.inr (Reach.tail hreach hr)
+
+theorem closure_root (g : Graph) (root : Nat) : root ∈ closure g root := by
+  unfold closure
+  rw [downLoop_eq]
+  obtain ⟨ext, h⟩ := fix_prefix (cD g) g.length (g.length + 1) [root]
+  rw [h]; simp
+
+theorem closure_step (g : Graph) (root j i : Nat) (hj : j ∈ closure g root)
+    (hji : j ∈ prereqs g i) : i ∈ closure g root := by
+  have hcl := fix_closed (cD g) (fresh_cD g) g.length root (g.length + 1) [root] (inv_root _ _) (by simp; omega)
+  unfold closure at hj ⊢
+  rw [downLoop_eq] at hj ⊢
+  have hlt := prereqs_ne_nil_lt g i (List.ne_nil_of_mem hji)
+  have hc := grow_nil (cD g) _ _ hcl i (List.mem_range.mpr hlt)
+  by_cases hin : i ∈ fix (cD g) g.length (g.length + 1) [root]
+  · exact hin
+  · exfalso
+    have : cD g (fix (cD g) g.length (g.length + 1) [root]) i = true := by
+      simp only [cD, Bool.and_eq_true, Bool.not_eq_eq_eq_not, Bool.not_true, List.any_eq_true,
+        List.contains_eq_mem, decide_eq_true_eq, decide_eq_false_iff_not]
+      exact ⟨hin, j, hji, hj⟩
+    rw [this] at hc; cases hc
+
+theorem closure_complete (g : Graph) (root i : Nat) (h : Reach g root i) :
+    i ∈ closure g root := by
+  induction h with
+  | single h => exact closure_step g root _ _ (closure_root g root) h
+  | tail _ h ih => exact closure_step g root _ _ ih h
+
+/-- **`get_downstream_stages` is reachability**: `i` is returned iff there is a non-empty path of
+    prerequisite edges from the root to `i` — for every graph; on a cyclic graph the root itself is
+    returned exactly when it lies on a cycle (what the Python DFS does). -/
+theorem downstream_is_reachability (g : Graph) (root i : Nat) :
+    i ∈ downstream g root ↔ Reach g root i := by
+  unfold downstream
+  simp only [List.mem_filter, List.mem_range, Bool.and_eq_true, List.contains_eq_mem,
+    decide_eq_true_eq, Bool.or_eq_true, bne_iff_ne, ne_eq, List.any_eq_true]
+  change (i < g.length ∧ i ∈ closure g root ∧
+      (¬ i = root ∨ (∃ x, x ∈ closure g root ∧ ¬ x = root ∧ x ∈ prereqs g root) ∨ root ∈ prereqs g root))
+    ↔ Reach g root i
+  constructor
+  · rintro ⟨_, hcl, hcase⟩
+    rcases closure_sound g root i hcl with rfl | hr
+    · rcases hcase with hne | ⟨x, hx, hxne, hxp⟩ | hself
+      · exact absurd rfl hne
+      · rcases closure_sound g i x hx with rfl | hr
+        · exact absurd rfl hxne
+        · exact Reach.tail hr hxp
+      · exact Reach.single hself
+    · exact hr
+  · intro hr
+    refine ⟨hr.lt, closure_complete g root i hr, ?_⟩
+    by_cases hne : i = root
+    · subst hne
+      right
+      cases hr with
+      | single h => exact Or.inr h
+      | tail hrj hji =>
+        rename_i j
+        by_cases hj : j = i
+        · subst hj; exact Or.inr hji
+        · exact Or.inl ⟨j, closure_complete g i j hrj, hj, hji⟩
+    · exact Or.inl hne
+
+/-- a jump is "backward" iff it is a self loop or the source is reachable from the target -/
+theorem backward_iff (g : Graph) (s t : Nat) : isBackward g s t = true ↔ s = t ∨ Reach g t s := by
+  unfold isBackward
+  simp only [Bool.or_eq_true, beq_iff_eq, List.contains_eq_mem, decide_eq_true_eq]
+  rw [downstream_is_reachability]
+
+/-- every resettable stage is downstream of the root (the fan-in-respecting scope refines the
+    naive closure) -/
+theorem resettable_subset_downstream (g : Graph) (root i : Nat) (h : i ∈ resettable g root) :
+    i ∈ downstream g root := by
+  rw [downstream_is_reachability]
+  have key : ∀ j, Scope g root j → j = root ∨ Reach g root j := by
+    apply resettable_least g root (fun j => j = root ∨ Reach g root j) (Or.inl rfl)
+    intro j hne hall
+    obtain ⟨r, hr⟩ := List.exists_mem_of_ne_nil _ hne
+    rcases hall r hr with rfl | hreach
+    · exact Or.inr (Reach.single hr)
+    · exact Or.inr (Reach.tail hreach hr)
+  rcases key i (Or.inr h) with rfl | hr
+  · exact absurd h (resettable_excludes_root g _)
+  · exact hr
+
+/-- **forward jump**: the stages marked SKIPPED are exactly those that depend only on the source,
+    minus the target and everything downstream of the target. -/
+theorem skipped_characterisation (g : Graph) (s t i : Nat) :
+    i ∈ skipped g s t ↔ i ∈ resettable g s ∧ i ≠ t ∧ i ∉ downstream g t := by
+  unfold skipped
+  simp only [List.mem_filter, List.mem_range, Bool.and_eq_true, List.contains_eq_mem,
+    decide_eq_true_eq, Bool.not_eq_eq_eq_not, Bool.not_true, decide_eq_false_iff_not,
+    List.mem_cons, not_or]
+  constructor
+  · rintro ⟨_, h1, h2, h3⟩; exact ⟨h1, h2, h3⟩
+  · rintro ⟨h1, h2, h3⟩; exact ⟨resettable_in_range g s i h1, h1, h2, h3⟩
+
+/-- skipped stages: never the target, never the source, never anything the target leads to -/
+theorem skipped_excludes (g : Graph) (s t i : Nat) (h : i ∈ skipped g s t) :
+    i ≠ t ∧ i ≠ s ∧ ¬ Reach g t i := by
+  rw [skipped_characterisation] at h
+  refine ⟨h.2.1, ?_, fun hr => h.2.2 ((downstream_is_reachability g t i).mpr hr)⟩
+  rintro rfl; exact resettable_excludes_root g _ h.1
+
+/-- **what an accepted jump re-arms** (`reset_stage_for_retry`): exactly the target, the stages
+    that depend only on it, and — on a backward jump — the source itself. -/
+theorem rearm_exact (g : Graph) (s t i : Nat) (ht : t < g.length) (hs : s < g.length) :
+    i ∈ (jumpEffect g s t).rearm ↔
+      i = t ∨ i ∈ resettable g t ∨ (i = s ∧ isBackward g s t = true) := by
+  unfold jumpEffect
+  simp only [List.mem_filter, List.mem_range, List.contains_eq_mem, decide_eq_true_eq,
+    List.mem_cons, List.mem_append, Bool.and_eq_true, bne_iff_ne, ne_eq]
+  constructor
+  · rintro ⟨_, h | h | ⟨h, _⟩⟩
+    · exact Or.inl h
+    · split at h
+      · rename_i hc; simp at h; exact Or.inr (Or.inr ⟨h, hc.2⟩)
+      · simp at h
+    · exact Or.inr (Or.inl h)
+  · rintro (rfl | h | ⟨rfl, hb⟩)
+    · exact ⟨ht, Or.inl rfl⟩
+    · by_cases his : i = s
+      · subst his
+        by_cases hit : i = t
+        · exact ⟨hs, Or.inl hit⟩
+        · refine ⟨hs, Or.inr (Or.inl ?_)⟩
+          have hb : isBackward g i t = true :=
+            (backward_iff g i t).mpr (Or.inr ((downstream_is_reachability g t i).mp
+              (resettable_subset_downstream g t i h)))
+          simp [hit, hb]
+      · by_cases hit : i = t
+        · exact ⟨resettable_in_range g t i h, Or.inl hit⟩
+        · exact ⟨resettable_in_range g t i h, Or.inr (Or.inr ⟨h, his, hit⟩)⟩
+    · by_cases hit : i = t
+      · exact ⟨hs, Or.inl hit⟩
+      · exact ⟨hs, Or.inr (Or.inl (by simp [hit, hb]))⟩
+
+/-- a forward jump offers exactly `skipped` for SKIPPED and marks the source SUCCEEDED; a backward
+    jump skips nothing -/
+theorem skip_effect (g : Graph) (s t : Nat) :
+    (jumpEffect g s t).skip = (if isBackward g s t then [] else skipped g s t)
+    ∧ (jumpEffect g s t).sourceSucceeded = (s != t && !isBackward g s t) := by
+  simp [jumpEffect]
+
+/-! ## Part 2 — the jump budget -/
+
+/-- a jump is accepted iff the source's count is below the effective max -/
+theorem accepted_iff (count max : Int) : jumpAccepted count max = true ↔ count < max := by
+  simp [jumpAccepted]
+
+/-- **budget spent ⇒ rejected** (the handler then marks the source TERMINAL and completes it);
+    counts are left untouched by a rejected jump -/
+theorem budget_spent_is_terminal (b : Budget) (cs : Counts) (s t : Nat)
+    (h : b.maxFor s ≤ countOf cs s) : jumpStep b cs s t = (cs, false) := by
+  have : jumpAccepted (countOf cs s) (b.maxFor s) = false := by simp [jumpAccepted, h]
+  simp [jumpStep, this]
+
+/-- **precedence of `_max_jumps`**: workflow context, else source stage context, else 10;
+    `0` (or a negative number) disables jumps for a fresh stage -/
+theorem effective_max_precedence (w s : Int) :
+    effectiveMax (some w) (some s) = w ∧ effectiveMax (some w) none = w ∧
+    effectiveMax none (some s) = s ∧ effectiveMax none none = 10 := by
+  simp [effectiveMax]
+
+theorem zero_disables_jumps (b : Budget) (cs : Counts) (s t : Nat) (hb : b.maxFor s ≤ 0)
+    (hc : 0 ≤ countOf cs s) : (jumpStep b cs s t).2 = false := by
+  rw [budget_spent_is_terminal b cs s t (by omega)]
+
+/-- what an accepted jump writes: `count(source) + 1` to the target and to the source; every
+    other stage keeps its count -/
+theorem accepted_jump_writes (b : Budget) (cs : Counts) (s t : Nat) (hs : s < cs.length)
+    (ht : t < cs.length) (hacc : (jumpStep b cs s t).2 = true) :
+    countOf (jumpStep b cs s t).1 s = countOf cs s + 1 ∧
+    countOf (jumpStep b cs s t).1 t = countOf cs s + 1 ∧
+    (∀ k, k ≠ s → k ≠ t → countOf (jumpStep b cs s t).1 k = countOf cs k) ∧
+    (jumpStep b cs s t).1.length = cs.length := by
+  unfold jumpStep at hacc ⊢
+  simp only at hacc ⊢
+  split at hacc
+  · rename_i h
+    simp only [h, ↓reduceIte]
+    refine ⟨?_, ?_, ?_, by simp⟩
+    · unfold countOf
+      by_cases hst : s = t
+      · subst hst; simp [List.getD, hs]
+      · simp [List.getD, hs, Ne.symm hst]
+    · unfold countOf; simp [List.getD, hs, ht]
+    · intro k hks hkt
+      unfold countOf
+      simp [List.getD, Ne.symm hks, Ne.symm hkt]
+  · simp at hacc
+
+/-- weight of one stage in the potential: `3 ^ (M − min(count, M))` -/
+def weight (M : Int) (c : Int) : Nat := 3 ^ (M - c).toNat
+
+/-- **the potential** Φ(counts) = Σ_stages 3^(M − min(count_s, M)) -/
+def phi (M : Int) (cs : Counts) : Nat := (cs.map (weight M)).sum
+
+theorem weight_pos (M c : Int) : 1 ≤ weight M c := Nat.pow_pos (by decide)
+
+theorem weight_succ (M c : Int) (h : c < M) : weight M c = 3 * weight M (c + 1) := by
+  unfold weight
+  have : (M - c).toNat = (M - (c + 1)).toNat + 1 := by omega
+  rw [this, Nat.pow_succ]; omega
+
+theorem phi_set (M : Int) (cs : Counts) (i : Nat) (v : Int) (h : i < cs.length) :
+    phi M (cs.set i v) + weight M cs[i] = phi M cs + weight M v := by
+  unfold phi
+  rw [List.map_set]
+  have := sum_set (cs.map (weight M)) i (weight M v) (by simpa using h)
+  simpa using this
+
+/-- **`jump_measure_decreases`**: an accepted jump strictly decreases Φ (by at least 2), whatever
+    the source and target, self loop or not, and whatever the target's previous count was — for
+    any `M` that bounds the effective max of the source. -/
+theorem jump_measure_decreases (b : Budget) (M : Int) (cs : Counts) (s t : Nat)
+    (hs : s < cs.length) (ht : t < cs.length) (hM : b.maxFor s ≤ M)
+    (hacc : (jumpStep b cs s t).2 = true) :
+    phi M (jumpStep b cs s t).1 + 2 ≤ phi M cs := by
+  unfold jumpStep at hacc ⊢
+  simp only at hacc ⊢
+  split at hacc
+  · rename_i h
+    simp only [h, ↓reduceIte]
+    have hlt : countOf cs s < M := by
+      have := (accepted_iff _ _).mp h; omega
+    have hcs : countOf cs s = cs[s] := by simp [countOf, List.getD, hs]
+    have hw := weight_succ M (countOf cs s) hlt
+    have h1 := phi_set M cs s (countOf cs s + 1) hs
+    have hpos := weight_pos M (countOf cs s + 1)
+    by_cases hst : s = t
+    · subst hst
+      rw [List.set_set]
+      rw [← hcs] at h1
+      omega
+    · have ht' : t < (cs.set s (countOf cs s + 1)).length := by simpa using ht
+      have h2 := phi_set M (cs.set s (countOf cs s + 1)) t (countOf cs s + 1) ht'
+      have hget : (cs.set s (countOf cs s + 1))[t] = cs[t] := by
+        simp [hst]
+      rw [hget] at h2
+      have hpos2 := weight_pos M cs[t]
+      rw [← hcs] at h1
+      omega
+  · simp at hacc
+
+/-- a rejected jump leaves Φ unchanged; `jumpStep` never changes the number of stages -/
+theorem step_length (b : Budget) (cs : Counts) (s t : Nat) :
+    (jumpStep b cs s t).1.length = cs.length := by
+  unfold jumpStep; simp only; split <;> simp
+
+/-- number of accepted jumps in a run -/
+def accepted (flags : List Bool) : Nat := flags.count true
+
+/-- **`jumps_bounded` (potential form)**: for ANY sequence of jump requests — arbitrary sources and
+    targets, arbitrary order — twice the number of accepted jumps plus the final potential is at
+    most the initial potential. -/
+theorem jumps_bounded_potential (b : Budget) (M : Int) (hM : ∀ s, b.maxFor s ≤ M) :
+    ∀ (js : List (Nat × Nat)) (cs : Counts), (∀ j ∈ js, j.1 < cs.length ∧ j.2 < cs.length) →
+      2 * accepted (runJumps b cs js).2 + phi M (runJumps b cs js).1 ≤ phi M cs := by
+  intro js
+  induction js with
+  | nil => intro cs _; simp [runJumps, accepted]
+  | cons j js ih =>
+    intro cs hr
+    obtain ⟨s, t⟩ := j
+    have hst := hr (s, t) List.mem_cons_self
+    simp only [runJumps]
+    have hlen := step_length b cs s t
+    have ih' := ih (jumpStep b cs s t).1 (by
+      intro j hj; rw [hlen]; exact hr j (List.mem_cons_of_mem _ hj))
+    cases hacc : (jumpStep b cs s t).2
+    · have : (jumpStep b cs s t).1 = cs := by
+        unfold jumpStep at hacc ⊢; simp only at hacc ⊢; split at hacc <;> simp_all
+      rw [this] at ih' ⊢
+      simp only [accepted, List.count_cons, Bool.false_eq_true, beq_iff_eq, ↓reduceIte,
+        Nat.add_zero] at ih' ⊢
+      exact ih'
+    · have := jump_measure_decreases b M cs s t hst.1 hst.2 (hM s) hacc
+      simp only [accepted, List.count_cons, beq_self_eq_true, ↓reduceIte] at ih' ⊢
+      omega
+
+theorem phi_ge_length (M : Int) (cs : Counts) : cs.length ≤ phi M cs := by
+  have := sum_ge_length (cs.map (weight M)) (by
+    intro x hx; obtain ⟨c, _, rfl⟩ := List.mem_map.mp hx; exact weight_pos M c)
+  simpa [phi] using this
+
+theorem phi_le_of_nonneg (M : Int) (cs : Counts) (h : ∀ c ∈ cs, 0 ≤ c) :
+    phi M cs ≤ cs.length * 3 ^ M.toNat := by
+  have := sum_le_mul (cs.map (weight M)) (3 ^ M.toNat) (by
+    intro x hx; obtain ⟨c, hc, rfl⟩ := List.mem_map.mp hx
+    unfold weight
+    exact Nat.pow_le_pow_right (by decide) (by have := h c hc; omega))
+  simpa [phi] using this
+
+theorem run_length (b : Budget) : ∀ (js : List (Nat × Nat)) (cs : Counts),
+    (runJumps b cs js).1.length = cs.length := by
+  intro js
+  induction js with
+  | nil => intro cs; rfl
+  | cons j js ih => intro cs; obtain ⟨s, t⟩ := j; simp only [runJumps]; rw [ih, step_length]
+
+/-- **`jumps_bounded`**: in a workflow with `n` stages whose `_jump_count`s start non-negative
+    (absent = 0) and whose effective max is at most `M` for every source, ANY sequence of jump
+    requests contains at most `n · (3^M − 1) / 2` accepted jumps.  The bound depends only on the
+    number of stages and `M`; resets do not appear because `reset_stage_for_retry` keeps
+    `_jump_count` (see `runEvents_bounded` for the explicit interleaving). -/
+theorem jumps_bounded (b : Budget) (M : Int) (hM : ∀ s, b.maxFor s ≤ M) (cs : Counts)
+    (hcs : ∀ c ∈ cs, 0 ≤ c) (js : List (Nat × Nat))
+    (hr : ∀ j ∈ js, j.1 < cs.length ∧ j.2 < cs.length) :
+    accepted (runJumps b cs js).2 ≤ cs.length * (3 ^ M.toNat - 1) / 2 := by
+  have h1 := jumps_bounded_potential b M hM js cs hr
+  have h2 := phi_ge_length M (runJumps b cs js).1
+  rw [run_length] at h2
+  have h3 := phi_le_of_nonneg M cs hcs
+  have h4 : cs.length * (3 ^ M.toNat - 1) = cs.length * 3 ^ M.toNat - cs.length := by
+    rw [Nat.mul_sub, Nat.mul_one]
+  rw [h4]
+  omega
+
+/-- events on the `_jump_count` map: a handled jump request, or a reset of any stage by any jump
+    (`reset_stage_for_retry`, `reset_stage_to_skipped`, … none of which touches `_jump_count`) -/
+inductive Ev where
+  | jump (s t : Nat)
+  | reset (i : Nat)
+
+def runEvents (b : Budget) : Counts → List Ev → Counts × List Bool
+  | cs, [] => (cs, [])
+  | cs, .jump s t :: es =>
+    let r := jumpStep b cs s t
+    let rest := runEvents b r.1 es
+    (rest.1, r.2 :: rest.2)
+  | cs, .reset _ :: es => runEvents b cs es
+
+def jumpsOf : List Ev → List (Nat × Nat)
+  | [] => []
+  | .jump s t :: es => (s, t) :: jumpsOf es
+  | .reset _ :: es => jumpsOf es
+
+/-- arbitrary interleaving with resets changes nothing: same counts, same accepted jumps -/
+theorem runEvents_eq (b : Budget) : ∀ (es : List Ev) (cs : Counts),
+    runEvents b cs es = runJumps b cs (jumpsOf es) := by
+  intro es
+  induction es with
+  | nil => intro cs; rfl
+  | cons e es ih =>
+    intro cs
+    cases e with
+    | jump s t => simp only [runEvents, jumpsOf, runJumps, ih]
+    | reset i => simp only [runEvents, jumpsOf, ih]
+
+theorem runEvents_bounded (b : Budget) (M : Int) (hM : ∀ s, b.maxFor s ≤ M) (cs : Counts)
+    (hcs : ∀ c ∈ cs, 0 ≤ c) (es : List Ev)
+    (hr : ∀ j ∈ jumpsOf es, j.1 < cs.length ∧ j.2 < cs.length) :
+    accepted (runEvents b cs es).2 ≤ cs.length * (3 ^ M.toNat - 1) / 2 := by
+  rw [runEvents_eq]; exact jumps_bounded b M hM cs hcs _ hr
+
+/-- **what IS bounded by the max**: consecutive jumps from one source (to any targets, e.g. a
+    self loop): at most `max − count` of them are accepted, however many are requested. -/
+theorem single_source_bounded (b : Budget) (s : Nat) : ∀ (ts : List Nat) (cs : Counts),
+    s < cs.length → (∀ t ∈ ts, t < cs.length) →
+    (accepted (runJumps b cs (ts.map (fun t => (s, t)))).2 : Int) ≤ max 0 (b.maxFor s - countOf cs s) := by
+  intro ts
+  induction ts with
+  | nil => intro cs _ _; simp [runJumps, accepted]; omega
+  | cons t ts ih =>
+    intro cs hs ht
+    simp only [List.map_cons, runJumps]
+    have htl := ht t List.mem_cons_self
+    have hlen := step_length b cs s t
+    have ih' := ih (jumpStep b cs s t).1 (by rw [hlen]; exact hs)
+      (by intro u hu; rw [hlen]; exact ht u (List.mem_cons_of_mem _ hu))
+    cases hacc : (jumpStep b cs s t).2
+    · have : (jumpStep b cs s t).1 = cs := by
+        unfold jumpStep at hacc ⊢; simp only at hacc ⊢; split at hacc <;> simp_all
+      rw [this] at ih' ⊢
+      simp only [accepted, List.count_cons, Bool.false_eq_true, beq_iff_eq, ↓reduceIte,
+        Nat.add_zero] at ih' ⊢
+      exact ih'
+    · have hw := (accepted_jump_writes b cs s t hs htl hacc).1
+      have hlt : countOf cs s < b.maxFor s := by
+        unfold jumpStep at hacc; simp only at hacc
+        split at hacc
+        · rename_i h; exact (accepted_iff _ _).mp h
+        · simp at hacc
+      rw [hw] at ih'
+      simp only [accepted, List.count_cons, beq_self_eq_true, ↓reduceIte] at ih' ⊢
+      omega
+
+theorem step_accepted_iff (b : Budget) (cs : Counts) (s t : Nat) :
+    (jumpStep b cs s t).2 = true ↔ countOf cs s < b.maxFor s := by
+  unfold jumpStep; simp only
+  split
+  · rename_i h; simpa using (accepted_iff _ _).mp h
+  · rename_i h
+    have : ¬ countOf cs s < b.maxFor s := fun hlt => h ((accepted_iff _ _).mpr hlt)
+    simpa using this
+
+/-- **`self_loop_exact`**: a task that asks `k` times in a row to jump to its own stage is granted
+    exactly `min(k, max − count)` jumps; the next request is rejected (stage TERMINAL). -/
+theorem self_loop_exact (b : Budget) (s : Nat) : ∀ (k : Nat) (cs : Counts), s < cs.length →
+    accepted (runJumps b cs (List.replicate k (s, s))).2
+      = min k (b.maxFor s - countOf cs s).toNat := by
+  intro k
+  induction k with
+  | zero => intro cs _; simp [runJumps, accepted]
+  | succ k ih =>
+    intro cs hs
+    simp only [List.replicate_succ, runJumps]
+    have hlen := step_length b cs s s
+    have ih' := ih (jumpStep b cs s s).1 (by rw [hlen]; exact hs)
+    cases hacc : (jumpStep b cs s s).2
+    · have hge : ¬ countOf cs s < b.maxFor s := by
+        intro hlt; rw [(step_accepted_iff b cs s s).mpr hlt] at hacc; cases hacc
+      have hcs : (jumpStep b cs s s).1 = cs := by
+        rw [budget_spent_is_terminal b cs s s (by omega)]
+      rw [hcs] at ih' ⊢
+      simp only [accepted, List.count_cons, Bool.false_eq_true, beq_iff_eq, ↓reduceIte,
+        Nat.add_zero] at ih' ⊢
+      omega
+    · have hw := (accepted_jump_writes b cs s s hs hs hacc).1
+      have hlt := (step_accepted_iff b cs s s).mp hacc
+      rw [hw] at ih'
+      simp only [accepted, List.count_cons, beq_self_eq_true, ↓reduceIte] at ih' ⊢
+      omega
+
+/-! ### the count is per stage and can be lowered: the workflow-wide number of jumps exceeds max -/
+
+/-- FALSE as one might read the property ("a workflow makes at most `_max_jumps` jumps"):
+    two stages, `_max_jumps = 2`, five requests `A→A, A→A, B→A, A→A, B→A` are ALL accepted
+    (B→A overwrites A's count 2 with B's count + 1 = 1).  Stage A alone redirects 3 > 2 times. -/
+theorem jumps_exceed_max_counterexample :
+    ¬ ∀ (b : Budget) (cs : Counts) (js : List (Nat × Nat)), b.wf = some 2 → (∀ c ∈ cs, c = 0) →
+        accepted (runJumps b cs js).2 ≤ 2 := by
+  intro h
+  have := h { wf := some 2, stage := [none, none] } [0, 0] [(0, 0), (0, 0), (1, 0), (0, 0), (1, 0)] rfl
+    (by decide)
+  revert this; decide
+
+/-- the requests of the loop "A redirects to itself while it can, then B sends it back once" -/
+def pingRound (k : Nat) : List (Nat × Nat) := List.replicate k (0, 0) ++ [(1, 0)]
+
+def pingAll : Nat → List (Nat × Nat)
+  | 0 => []
+  | k + 1 => pingRound (k + 1) ++ pingAll k
+
+/-- with the DEFAULT budget (no `_max_jumps` anywhere ⇒ 10) a two-stage workflow accepts 65 jumps,
+    55 of them from stage A -/
+theorem default_budget_65_jumps_counterexample :
+    (runJumps { wf := none, stage := [none, none] } [0, 0] (pingAll 10)).2 = List.replicate 65 true
+    ∧ (pingAll 10).length = 65
+    ∧ ((pingAll 10).filter (fun j => j.1 == 0)).length = 55 := by
+  decide +kernel
+
+/-! ## non-vacuity -/
+
+-- diamond 0 → {1,2} → 3, side input 4 → 5 ← 3 : a jump back to 0 re-arms 1,2,3 but not the fan-in 5
+private def gDiamond : Graph := [[], [0], [0], [1, 2], [], [3, 4]]
+example : resettable gDiamond 0 = [1, 2, 3] := by decide
+example : downstream gDiamond 0 = [1, 2, 3, 5] := by decide
+example : 5 ∉ resettable gDiamond 0 := fan_in_excluded gDiamond 0 5 4 (by decide) (by unfold Scope; decide)
+example : Closed gDiamond (Scope gDiamond 0) := resettable_closed _ _
+-- forward jump 0 → 3 over the diamond skips 1 and 2
+example : skipped gDiamond 0 3 = [1, 2] := by decide
+example : isBackward gDiamond 3 0 = true ∧ isBackward gDiamond 0 3 = false := by decide
+example : (jumpEffect gDiamond 3 1).rearm = [1, 3] := by decide
+-- the scan needs several passes when stages are listed against the dependency order
+example : resettable [[1], [2], [3], []] 3 = [2, 1, 0] := by decide
+-- cyclic graph: still a fixed point, the root is its own descendant
+example : downstream [[1], [0]] 0 = [0, 1] ∧ resettable [[1], [0]] 0 = [1] := by decide
+example : Reach gDiamond 0 5 := Reach.tail (Reach.tail (Reach.single (by decide : 0 ∈ prereqs gDiamond 1)) (by decide : 1 ∈ prereqs gDiamond 3)) (by decide : 3 ∈ prereqs gDiamond 5)
+-- budget: an accepted jump, a rejected one, the precedence
+example : jumpStep { wf := some 2, stage := [none, some 7] } [1, 5] 0 1 = ([2, 2], true) := by decide
+example : jumpStep { wf := some 2, stage := [none, some 7] } [2, 0] 0 1 = ([2, 0], false) := by decide
+example : jumpStep { wf := none, stage := [none, some 7] } [0, 6] 1 0 = ([7, 7], true) := by decide
+example : phi 2 [0, 0] = 18 ∧ phi 2 [2, 2] = 2 := by decide
+-- a self loop asking 5 times with max 3 is granted exactly 3
+example : accepted (runJumps { wf := some 3, stage := [none] } [0] (List.replicate 5 (0, 0))).2 = 3 := by decide
+example : ∃ (b : Budget) (cs : Counts), (jumpStep b cs 0 1).2 = true ∧ 0 < cs.length ∧ 1 < cs.length :=
+  ⟨{ wf := some 2, stage := [] }, [1, 5], by decide, by decide, by decide⟩
+
 end Stab.Props.C15
